@@ -1,9 +1,13 @@
-use std::{
-    path::PathBuf,
-    sync::{Arc, Barrier},
-};
+#[cfg(not(aquatic_verif))]
+use std::sync::Barrier;
+use std::{path::PathBuf, sync::Arc};
 
+#[cfg(aquatic_verif)]
+use aquatic_verif_rt::thread::Barrier;
+
+#[cfg(not(aquatic_verif))]
 use anyhow::Context;
+#[cfg(not(aquatic_verif))]
 use privdrop::PrivDrop;
 use serde::{Deserialize, Serialize};
 
@@ -49,6 +53,11 @@ impl PrivilegeDropper {
 
     pub fn after_socket_creation(self) -> anyhow::Result<()> {
         if self.config.drop_privileges && self.barrier.wait().is_leader() {
+            // simulation: the rendezvous is real, the chroot / setuid of the harness process is not
+            #[cfg(aquatic_verif)]
+            return Ok(());
+
+            #[cfg(not(aquatic_verif))]
             PrivDrop::default()
                 .chroot(self.config.chroot_path.clone())
                 .group(self.config.group.clone())
